@@ -1,4 +1,39 @@
 use super::Value;
+use std::cmp::Ordering;
+
+/// Exact comparison of an integer with a float: the integer is not rounded to
+/// `f64` (which would identify e.g. 2^53 + 1 with 2^53). `None` iff `f` is NaN.
+pub(super) fn compare_i64_f64(i: i64, f: f64) -> Option<Ordering> {
+    // 2^63 is exactly representable; every i64 lies in [-2^63, 2^63).
+    const TWO_POW_63: f64 = 9_223_372_036_854_775_808.0;
+    if f.is_nan() {
+        return None;
+    }
+    if f >= TWO_POW_63 {
+        return Some(Ordering::Less);
+    }
+    if f < -TWO_POW_63 {
+        return Some(Ordering::Greater);
+    }
+    // Both the truncation and the fractional part are exact in this range.
+    let truncated = f.trunc();
+    match i.cmp(&(truncated as i64)) {
+        Ordering::Equal => 0.0_f64.partial_cmp(&(f - truncated)),
+        ord => Some(ord),
+    }
+}
+
+/// Exact numeric comparison of two numbers. `None` if either operand is NaN
+/// or not a number.
+pub(super) fn compare_numeric(left: &Value, right: &Value) -> Option<Ordering> {
+    match (left, right) {
+        (Value::Int(l), Value::Int(r)) => Some(l.cmp(r)),
+        (Value::Int(l), Value::Float(r)) => compare_i64_f64(*l, *r),
+        (Value::Float(l), Value::Int(r)) => compare_i64_f64(*r, *l).map(Ordering::reverse),
+        (Value::Float(l), Value::Float(r)) => l.partial_cmp(r),
+        _ => None,
+    }
+}
 
 pub(super) fn value_as_f64(value: &Value) -> Option<f64> {
     match value {
